@@ -74,22 +74,73 @@ def rule_a(ctx, init, tabs):
         unp = am.has(f.node, "r, c = args") is not None
         ctx.ob(R, f.qname, "addresses self.patches[i][j] with (i, j) = args", unp and acc == [f"self.patches[{am.actual('r')}][{am.actual('c')}]"], f"{acc} {am.show()}", f.node)
     f = m.method(k, "assemble")
-    am = AM(f)
-    loops = [l for l in f.node.body if isinstance(l, ast.For)]
-    def tpl(h, v):
-        return ("for r in range(self.num_patches[0]):\n"
-                "    rel_roi = self.relative_rois_without_overlap[r][0]\n"
-                "    strip = self.patches[r][0].img[rel_roi]\n"
-                "    for c in range(1, self.num_patches[1]):\n"
-                "        rel_roi = self.relative_rois_without_overlap[r][c]\n"
-                f"        strip = {h}\n"
-                f"    whole = {v}")
-    H = ("np.hstack((strip, self.patches[r][c].img[rel_roi]))", "np.concatenate((strip, self.patches[r][c].img[rel_roi]), axis=1)")
-    V = ("np.vstack((whole, strip))", "np.concatenate((whole, strip), axis=0)")
-    ok = len(loops) == 1 and any(am.eq(loops[0], tpl(h, v)) for h in H for v in V) \
-        and any(am.has(f.node, f"whole = np.{z}((0, *self.base.img.shape[1:]), dtype=self.base.img.dtype)") is not None for z in ("zeros", "empty")) \
-        and am.has(f.node, "result = type(self.base)(img=whole, **self.base.metadata())") is not None and am.has(f.node, "return result") is not None
-    ctx.ob(R, f.qname, "assemble: columns are concatenated horizontally inside, rows vertically outside, patches[row][col] throughout", ok, "", f.node)
+    # assemble is folded symbolically on a 2 x 3 grid of symbolic patches and ROIs: whatever way the stacking is written, the result must be
+    # the block matrix [[P00[R00], P01[R01], P02[R02]], [P10[R10], P11[R11], P12[R12]]] (hstack / concatenate(axis=1) inside, vstack / axis=0 outside)
+    from ..fold import Arr, Folder, Obj, Opaque, Raised, Refuse, Sym, _Return
+
+    NR, NC = 2, 3
+    me = Obj("self", {"num_patches": [NR, NC],
+                      "relative_rois_without_overlap": [[Opaque("roi", f"R{r}{c}") for c in range(NC)] for r in range(NR)],
+                      "patches": [[Obj(f"p{r}{c}", {"img": Opaque("arr", f"P{r}{c}")}) for c in range(NC)] for r in range(NR)],
+                      "base": Obj("base", {"img": Obj("bimg", {"shape": (6, 9), "dtype": Opaque("dtype", "DT")})})})
+    fo = Folder(symbolic=True)
+    fo.func_stack.append(f.node)
+    env = {f.params[0]: me}
+    for pn in f.params[1:]:
+        env[pn] = False
+    res = None
+    for st in f.node.body:
+        try:
+            fo.stmt(st, env)
+        except (Refuse, Raised):
+            continue
+        except _Return as r_:
+            res = r_.value
+            break
+
+    def leaf(x):
+        t = repr(x)
+        return t[:-2] if t.endswith("()") else t
+
+    def grid(x):
+        """rows of leaves, or None"""
+        if isinstance(x, Arr):
+            return [] if not x.data else None
+        if isinstance(x, Sym):
+            nm = x.fn
+            parts = None
+            if x.args and isinstance(x.args[0], (list, tuple)):
+                parts = list(x.args[0])
+            axis = x.kw.get("axis") if hasattr(x, "kw") else None
+            if nm in ("np.zeros", "np.empty") and x.args and isinstance(x.args[0], tuple) and x.args[0] and x.args[0][0] == 0:
+                return []
+            vertical = nm == "np.vstack" or (nm == "np.concatenate" and axis == 0)
+            horizontal = nm == "np.hstack" or (nm == "np.concatenate" and axis == 1)
+            if parts is not None and (vertical or horizontal):
+                gs = [grid(p_) for p_ in parts]
+                if any(g_ is None for g_ in gs):
+                    return None
+                if vertical:
+                    return [row for g_ in gs for row in g_]
+                if all(len(g_) == 1 for g_ in gs):
+                    return [[l_ for g_ in gs for l_ in g_[0]]]
+                return None
+            if not x.args and "[" in nm:
+                return [[leaf(x)]]
+        return None
+
+    img_arg = None
+    if isinstance(res, Sym):
+        img_arg = res.kw.get("img") if res.kw else (res.args[0] if res.args else None)
+    got = grid(img_arg) if img_arg is not None else None
+    want = [[f"P{r}{c}[<opaque roi R{r}{c}>]" for c in range(NC)] for r in range(NR)]
+    if got is None:
+        ctx.ob(R, f.qname, "assemble: columns are concatenated horizontally inside, rows vertically outside, patches[row][col] throughout", False,
+               "block structure of the assembled array not found by the symbolic fold", f.node)
+    else:
+        ctx.ob(R, f.qname, "assemble: columns are concatenated horizontally inside, rows vertically outside, patches[row][col] throughout", got == want,
+               f"a 2 x 3 patch grid is assembled as {got}; re-assembly needs {want}", f.node, evidence=True)
+    ctx.ob(R, f.qname, "the assembled array is wrapped with the base image's type and metadata", isinstance(res, Sym) and res.fn.startswith("type(self.base)") and bool(res.kw), repr(res)[:80], f.node)
 
 
 def rule_b(ctx, init, tabs):
